@@ -164,6 +164,12 @@ pub fn run(args: &Args) {
 		for n in [0usize, 1, 63, 64, 1 << 14, 1 << 30, u32::MAX as usize, 1usize << 32, (1usize << 32) + 1] {
 			zst_new(&mut cx, n);
 		}
+		// one call that skips a prefix width (1 -> 4 bytes) with real payload bytes on both sides
+		for old in [1usize, 63] {
+			let vec = (0..old).map(|i| i as u8 ^ 0x5a).collect::<Vec<u8>>().encode();
+			let items = rng.bytes((1 << 14) - old + (old & 1));
+			step::<u8>(&mut cx, &vec, &items, old == 63, true, "width-skip");
+		}
 		// garbage prefixes
 		for _ in 0..(if t { 3000 } else { 300 }) {
 			let k = rng.range(1, 8) as usize;
@@ -176,7 +182,7 @@ pub fn run(args: &Args) {
 			step::<u8>(&mut cx, &vec, &items, rng.chance(1, 2), true, "garbage");
 		}
 	}
-	let rule = "seeded histories of append_or_new (batch sizes 0..64, items u8/u32/String/Vec<u8>/()/derived struct, Vec and VecDeque targets, by-reference and by-value item forms) from empty or an encoded sequence of 0/1/62..65 items; zero-sized items with the old count within 3 of each prefix-width boundary (63/64, 2^14, 2^30, 2^32-1) x batches 0..4; batches whose sum lands on each boundary, on 2^32-1, 2^32 and beyond; append to empty with those counts; random and tag-tampered garbage prefixes. Every case is non-trivial (a call of append_or_new); distinct by (input bytes, count, item bytes, result)";
+	let rule = "seeded histories of append_or_new (batch sizes 0..64, items u8/u32/String/Vec<u8>/()/derived struct, Vec and VecDeque targets, by-reference and by-value item forms) from empty or an encoded sequence of 0/1/62..65 items; zero-sized items with the old count within 3 of each prefix-width boundary (63/64, 2^14, 2^30, 2^32-1) x batches 0..4; batches whose sum lands on each boundary, on 2^32-1, 2^32 and beyond; append to empty with those counts; two calls that skip a prefix width (1 -> 4 bytes) with u8 payload; random and tag-tampered garbage prefixes. Every case is non-trivial (a call of append_or_new); distinct by (input bytes, count, item bytes, result)";
 	cx.cases.write(&args.out, "c15", args.shards);
 	cx.oracle.write(&args.out);
 	cx.stats.write(&args.out, cx.cases.len(), cx.cases.nontrivial, cx.cases.dups, cx.oracle.checks, rule);
